@@ -12,7 +12,7 @@ r = subprocess.run('git -C /repo apply %s' % patch, shell=True, capture_output=T
 if r.returncode != 0:
     r = subprocess.run('git -C /repo apply -3 %s' % patch, shell=True, capture_output=True, text=True)
     if r.returncode != 0:
-        subprocess.run('git -C /repo checkout -- . ; git -C /repo reset -q', shell=True)
+        subprocess.run('git -C /repo reset -q ; git -C /repo checkout -- .', shell=True)
         print('PATCH DOES NOT APPLY to current /repo HEAD: ' + r.stderr[-300:]); sys.exit(3)
     subprocess.run('git -C /repo reset -q', shell=True)
 results = {}
